@@ -1,5 +1,6 @@
 import BoltonsVerif.Common
 import BoltonsVerif.C07.Model
+import BoltonsVerif.C07.Spec
 /-
 C07 line protocol.  One line = one whole navigation history:
     nav <base> <ref> <ref> ...
@@ -12,6 +13,8 @@ Output: `<base> <after ref 1> ... N <normalize()> <normalize() twice> <normalize
 (the three normalisations are applied to a fresh copy of the base), where a URL with a host is shown as
 `T<to_text()>` and a URL without a host as `C<scheme>|<user>|<password>|<port>|<path>|<query>|<fragment>`
 (how `to_text()` writes an empty authority belongs to property C06 and is not compared here).
+    parse <hex text> the Appendix B components of a reference text (scheme,authority,path,query,fragment; hex, N =
+                    undefined) and, for a text without scheme and authority, the object `URL(text)` (as `C...`)
     tables          prints the generated scheme tables and the generated `navigate` version flag back (checked
                     against the live module)
 -/
@@ -79,6 +82,15 @@ def handle (line : String) : String :=
     "P " ++ ",".intercalate (C07.Gen.schemePorts.map fun p => s!"{p.1}:{p.2}") ++
     " N " ++ ",".intercalate C07.Gen.noNetlocSchemes ++
     " Q " ++ (if C07.Gen.navHonoursEmptyQuery then "1" else "0")
+  | ["parse", h] =>
+    -- a reference text: Appendix B components (Spec) and, when it has neither scheme nor authority, `URL(text)`
+    match hexToString? h with
+    | some t =>
+      let r := rfcParse t.toList
+      let o (x : Option Str) : String := match x with | none => "N" | some v => stringToHex (String.ofList v)
+      let comps := ",".intercalate [o r.scheme, o r.authority, stringToHex (String.ofList r.path), o r.query, o r.fragment]
+      if r.scheme.isNone && r.authority.isNone then comps ++ " " ++ showU (URL.ofText t.toList) else comps ++ " -"
+    | none => "bad-op"
   | "nav" :: b :: refs =>
     match parseURL? b, parseAll? refs with
     | some base, some dests =>
